@@ -158,10 +158,11 @@ def decode (p : Param) (raw : Option (List Wire)) : Decoded :=
       if p.loc = .query && p.explode then decodeArray t (w :: ws)
       else decodeArray t (splitComma w)
 
-/-- the raw values written for a default -/
+/-- the raw values written for a default; nothing for an array without members (repaired code, commit 9af6bbd) -/
 def encodeDefault (p : Param) (d : PVal) : List Wire :=
   match p.loc, d with
   | .path, _ => []
+  | _, .list [] => []
   | .query, .sc a => [.lit a]
   | .query, .list as => if p.explode then as.map .lit else [mkCsv as]
   | _, .sc a => [.lit a]
@@ -207,7 +208,7 @@ def stepWith (skip : Bool) (p : Param) (raw : Option (List Wire)) (st : Store) :
   if p.content then
     -- a content parameter that is not found comes back WITHOUT its schema: no default is ever looked at
     (match raw with
-     | none => (st, !p.required && p.loc != .cookie)   -- cookie: the ErrNoCookie of the lookup is returned as the error
+     | none => (st, !p.required)   -- absent: fine unless required (repaired code c3da93a: an absent cookie is no error)
      | some ws => (st, contentValid p.ty (if p.loc = .cookie then ws.take 1 else ws)))   -- Request.Cookie: the first one
   else
   match decode p raw with
@@ -266,14 +267,14 @@ def InSync (view st : Store) : Prop := ∀ n : String, view.get (Loc.query, n) =
 
 /-! ### the remaining exclusion class and the spec -/
 
-/-- F-C13-7: the default that is written reads back as "no value" on the next validation — a schema without `type`
-    never decodes to a value, and an empty array joined by "," is the empty string — and a parameter that is found
-    without a value is rejected ("empty value is not allowed") unless allowEmptyValue is set.  The forwarded request
-    is then stable but does not validate again. -/
+/-- F-C13-7 (what is left after 9af6bbd): the default that is written reads back as "no value" on the next validation
+    — a schema without `type` never decodes to a value — and a parameter that is found without a value is rejected
+    ("empty value is not allowed") unless allowEmptyValue is set.  The forwarded request is then stable but does
+    not validate again. -/
 def DefaultReadsAsEmpty (skip : Bool) (p : Param) (st : Store) : Bool :=
   !p.content && !skip && !p.allowEmpty && decode p (st.get p.key) == .nil false &&
   (match p.dflt with
-   | some d => encodeDefault p d != [] && (p.ty == .untyped || encodeDefault p d == [.empty])
+   | some d => encodeDefault p d != [] && p.ty == .untyped
    | none => false)
 
 /-- "Set default value": `value = schema.Default`, but the first allOf member that has a default wins -/
@@ -320,13 +321,6 @@ def specEncode (p : Param) (d : PVal) : List Wire :=
   | _, .sc a => [.lit a]
   | .query, .list as => if p.explode then as.map .lit else [mkCsv as]
   | _, .list as => [mkCsv as]
-
-/-- F-C13-10: an empty array default is written as an EMPTY VALUE (`e=`, `X-E:`, `ck=`) where its serialisation is
-    nothing (the code joins the zero items by ","); with `explode` on a query parameter nothing is written, as it
-    should be.  (The written empty value then reads back as "present without a value": second half of F-C13-7.) -/
-def EmptyArrayWritten (skip : Bool) (p : Param) (st : Store) : Bool :=
-  !p.content && !skip && decode p (st.get p.key) == .nil false && p.dflt == some (.list []) &&
-  encodeDefault p (.list []) != []
 
 def specStep (skip : Bool) (p : Param) (st : Store) : Store :=
   if skip then st
